@@ -4,7 +4,10 @@ EXTENDS GroupFill, Json
 VARIABLE hist
 SetToSeq(S) == IF S = {} THEN <<>> ELSE LET RECURSIVE F(_) F(T) == IF T = {} THEN <<>> ELSE LET x == CHOOSE y \in T : TRUE IN <<x>> \o F(T \ {x}) IN F(S)
 Clean(r) == [k \in DOMAIN r |-> IF k \in {"mem", "G", "ans"} THEN SetToSeq(r[k]) ELSE r[k]]
-GenNext == Next /\ hist' = Append(hist, Clean(last'))
+\* generated behaviours do not ask a stopped cache for a loop (the statement speaks of loops "until stopped";
+\* the model itself keeps the step, Leg M covers it)
+NoLoopOnStopped == ~(stopped /\ last'.op \in {"loop", "ask"})   \* a membership question starts loops for uncached groups
+GenNext == Next /\ NoLoopOnStopped /\ hist' = Append(hist, Clean(last'))
 GenSpec == Init /\ hist = <<>> /\ [][GenNext]_<<vars, hist>>
 Quiet == \A t \in Threads : th'[t].pc \in {"idle", "off", "wait"}
 Emit == IF Quiet /\ Len(hist') > 0 THEN PrintT(<<"BEH", ToJson(hist')>>) ELSE TRUE
